@@ -13,7 +13,7 @@ REQUIRED_MONITORS = ["impulse-pairs(cov_mm)", "impulse-pairs(cov_R)", "definitio
                      "bilinearity(cov_mm)", "bilinearity(cov_R)", "result.H@SSIcov", "result.H@SSIdat"]
 ALL_STATES = [f"l={l}" for l in range(1, 5)] + [f"br={b}" for b in range(1, 6)] + ["ref=subset", "ref=all", "ref unordered"]
 REQUIRED_STATES = [f"l={l}" for l in range(1, 5)] + [f"br={b}" for b in range(1, 6)] + ["ref=subset", "Yref is Y (same object)", "same instance re-run with another ref_ind",
-                                                                                                 "integer-typed records", "ordmax above br * (number of references)", "matrix requested together with the uncertainty factor", "one run-parameter object shared by SSIdat and SSIcov"]
+                                                                                                 "integer-typed records", "ordmax above br * (number of references)", "matrix requested together with the uncertainty factor", "one run-parameter object shared by SSIdat and SSIcov", "record amplitude below 1e-6", "two nearly identical reference channels"]
 RULE = ("(a) exhaustive over a basis: for every channel count 1..4, every reference subset, br 1..5 and the listed record lengths, build_hank "
         "is evaluated on ALL pairs of unit impulses (e_{a,s}, e_{b,t}); each pair must light exactly the cells (i,a;j,b) with lag i+j+1 "
         "(cov_mm) / br+i-j (cov_R) with the uniform weight, nothing else; (b) random data, shapes up to 8 channels / br 12 / 400 samples "
@@ -166,7 +166,13 @@ def run_random(ctx, rng):
     Nd = int(rng.integers(2 * br + 6, 400))
     refidx = [int(x) for x in rng.permutation(l)[:r]]
     unordered = refidx != sorted(refidx)
-    Y = gen.coloured(rng, l, Nd) * 10 ** rng.uniform(-2, 2)
+    Y = gen.coloured(rng, l, Nd) * 10 ** (rng.uniform(-2, 2) if rng.random() < 0.7 else rng.uniform(-10, -2))
+    if np.std(Y) < 1e-6:
+        ctx.state("record amplitude below 1e-6")
+    if l >= 3 and r >= 2 and rng.random() < 0.25:
+        # two reference sensors side by side: nearly identical records (full rank, but ill conditioned past outputs)
+        Y[refidx[1]] = Y[refidx[0]] + float(10 ** rng.uniform(-7, -4)) * np.std(Y[refidx[0]]) * gen.coloured(rng, 1, Nd)[0]
+        ctx.state("two nearly identical reference channels")
     if rng.random() < 0.25:
         # raw ADC counts: records stored with a narrow integer dtype (the entries are sample correlations of the VALUES, whatever the storage)
         dt_ = rng.choice([np.int16, np.int32])
@@ -220,16 +226,23 @@ def run_random(ctx, rng):
         if ctx.check(H.shape == shape, "dat:shape", lambda: f"dat: shape {H.shape} expected {shape}"):
             Yf = np.vstack([Y[:, q + 1 + i: N + q + i] for i in range(p + 1)]) / np.sqrt(N)
             Yp = np.vstack([Yref[:, q - j: N + q - 1 - j] for j in range(q)]) / np.sqrt(N)
-            G = Yp @ Yp.T
-            if np.linalg.cond(G) <= 1e10:
-                P = Yf @ Yp.T @ np.linalg.solve(G, Yp)
+            # orthogonal projection onto the row space of Yp through an orthonormal basis (QR of Yp^T): accurate to eps*cond(Yp), unlike the
+            # normal equations Yp Yp^T, whose condition number is the square
+            Yp = Yp.astype(float)
+            sv = np.linalg.svd(Yp, compute_uv=False)
+            cYp = sv[0] / sv[-1] if sv[-1] > 0 else np.inf
+            if cYp <= 1e9:
+                Qb, _ = np.linalg.qr(Yp.T)
+                Pq = Yf.astype(float) @ Qb
                 ctx.ev("projection-gram(dat)")
-                E = P @ P.T
+                E = Pq @ Pq.T
                 err = np.max(np.abs(H @ H.T - E)) / np.max(np.abs(E))
-                ctx.maxi("projection-gram(dat): worst relative difference", err)
-                ctx.check(err <= 1e-8, "dat:gram_not_projection", lambda: f"dat l={l} ref={refidx} br={br} Ndat={Nd}: H H^T differs from Gram of projection by {err:.2e}")
+                tol_d = max(1e-8, 1e3 * np.finfo(float).eps * cYp)
+                ctx.maxi("projection-gram(dat): worst relative difference / tolerance", err / tol_d)
+                ctx.check(err <= tol_d, "dat:gram_not_projection",
+                          lambda: f"dat l={l} ref={refidx} br={br} Ndat={Nd}: H H^T differs from Gram of projection by {err:.2e} (cond of the past outputs {cYp:.1e}, tolerance {tol_d:.1e})")
             else:
-                ctx.not_judged("dat: cond(Yp Yp^T) > 1e10")
+                ctx.not_judged("dat: cond(Yp) > 1e9")
     else:
         ctx.not_judged("dat: record shorter than the stacked row count")
     if unordered:
